@@ -100,6 +100,13 @@ def r_delegate_agree(ctx):
             sn = m.self_name
             calls = [c for c in P.calls_in(m) if isinstance(c.func, ast.Attribute) and P.self_attr(c.func.value, sn) == attr]
             body = [s for s in m.node.body if not (isinstance(s, ast.Expr) and isinstance(s.value, ast.Constant))]
+            # a public operation of the wrapper touches the wrapped container at all
+            if not m.name.startswith('_') or m.name in ('__setitem__', '__getitem__', '__delitem__', '__len__', '__contains__'):
+                touches = any(a_.attr == attr for a_ in P.accesses(m))
+                ctx.tick()
+                if not touches:
+                    ctx.violation('%s.%s:wrapper-ignores-container' % (cn, m.name), m.loc(), 'the method never reads or changes self.%s: the operation has no effect / no answer' % attr,
+                                  instance='%s.%s works on the wrapped %s' % (cn, m.name, kind))
             if len(calls) != 1 or len(body) != 1 or not isinstance(body[0], (ast.Expr, ast.Return)):
                 continue            # not a pure delegation (e.g. ReplQueue.get wraps popleft in try/except)
             c = calls[0]
